@@ -16,7 +16,7 @@ CHUNK = 15000
 
 def jobs_for(quick):
     if quick:
-        b = {"nat": 10, "int": 10, "mod": 11, "num": 10, "rat": 8, "crt": 9, "modular": 10, "znstar": 12, "jacobi": 10, "primes": 12, "wide": 12}
+        b = {"nat": 9, "int": 9, "mod": 10, "num": 9, "rat": 6, "crt": 8, "modular": 8, "znstar": 12, "jacobi": 9, "primes": 12, "wide": 12}
     else:
         b = {"nat": 20, "int": 20, "mod": 24, "num": 20, "rat": 14, "crt": 16, "modular": 24, "znstar": 12, "jacobi": 30, "primes": 24, "wide": 24}
     out = [(m, ["-mode", m, "-b", str(v)]) for m, v in b.items()]
@@ -100,6 +100,10 @@ def run(chk):
     quick = chk.quick
     jobs = jobs_for(quick)
     mcs = ["SmallNumMC_quick.cfg"] if quick else ["SmallNumMC_quick.cfg", "SmallNumMC_thorough.cfg"]
+    only = os.environ.get("VERIF_ONLY")      # self-test aid (mutation runs): restrict to some driver modes, skip the model checking
+    if only:
+        jobs = [j for j in jobs if j[0] in only.split(",")]
+        mcs = []
 
     def mc(cfg):
         return lambda: vlib.tlc(SPEC, "SmallNumMC", cfg, workers=4, timeout=3000)
@@ -123,8 +127,13 @@ def run(chk):
                                                                                     "SmallNumTraceScan.cfg", p, hdr)))
                                  for i, p in enumerate(chunks)], max_workers=3)
             bad = [r for v in res.values() for r in v]
-            for r in bad:
-                chk.violation(key_of(r), "call rejected by SmallNumTrace: %s" % json.dumps(r)[:600], r)
+            per = {}
+            for r in bad:                       # at most 5 reports (replay files) per action; every rejected line is counted
+                k = key_of(r)
+                if k not in chk.known and per.get(r["a"], 0) >= 5:
+                    continue
+                per[r["a"]] = per.get(r["a"], 0) + 1
+                chk.violation(k, "call rejected by SmallNumTrace: %s" % json.dumps(r)[:600], r)
             stats["lines"] += len(rows)
             stats["rejected"] += len(bad)
             return len(rows)
